@@ -73,6 +73,11 @@ def gen_cases(ck):
         pieces, text = laid[rng.randrange(len(laid))]
         kind, m = g.mutate(rng, pieces)
         add(m, "mut_" + kind)
+    # near-miss names: every name class with characters just outside its regular expression
+    for i in range(250 if quick else 4000):
+        pieces, text = laid[rng.randrange(len(laid))]
+        for k, t in g.near_miss_names(rng, pieces, per_text=3):
+            add(t, "name_" + k)
     # truncation at every byte
     trunc_src = [t.encode() for t in FIXED_TEXTS]
     short = sorted((t for _, t in laid if 20 < len(t) < (160 if quick else 400)), key=len)
